@@ -23,7 +23,7 @@ theorem keyCfg_of_mem (p : ParamSet) (hp : p ∈ [ml_dsa_44, ml_dsa_65, ml_dsa_8
 
 theorem keygen_never_panics (m : Mode) (O : Oracles) (hO : OracleOk O) (p : ParamSet) (hp : p ∈ [ml_dsa_44, ml_dsa_65, ml_dsa_87])
     (xi : List Nat) (script : List RngResp) :
-    NoPanic (keygenFromSeed m O p xi) (fun kp => PkOk p kp.1 ∧ SkOk p kp.2) ∧
+    NoPanic (keygenFromSeed m O p xi) (GenOk m O p) ∧
     NoPanic (keygenWithRng m O p script) (fun _ => True) := by
   obtain ⟨he, hl7, hcfg⟩ := keyCfg_of_mem p hp
   refine ⟨keyGenInternal_np m O hO p he hl7 hcfg xi, ?_⟩
